@@ -95,6 +95,10 @@ POLLUTERS = [
     "var top = [7]; for (var di = 0; di < 3000; di++) { top = [top]; } try { String(top); } catch (e) { } try { top.join('-'); } catch (e2) { } var held = []; for (var q = 0; q < 600; q++) { held.push([q]); } 1;",
     "var deep = [1]; for (var dk = 0; dk < 3000; dk++) { deep = [deep, 2]; } deep + '';",
     "var dob = {v: 1}; for (var dn = 0; dn < 3000; dn++) { dob = {k: dob}; } try { JSON.stringify(dob); } catch (e) { } var cyc = {}; cyc.self = cyc; try { JSON.stringify(cyc); } catch (e3) { } 1;",
+    # source nested deeper than the front end accepts (whatever a context does about that must not change what later contexts accept)
+    "var x = " + "{a: " * 400 + "1" + "}" * 400 + ";",
+    "(" * 600 + "1" + ")" * 600,
+    "[" * 500 + "]" * 500 + ".length",
     "function drec(n) { return drec(n + 1) + 1; } try { drec(0); } catch (e) { } try { [1].map(function f() { return [2].map(f); }); } catch (e4) { } 1;",
     "var t = ''; for (var dp = 0; dp < 3000; dp++) { t += '['; } try { JSON.parse(t); } catch (e) { } try { (0, eval)(t); } catch (e5) { } try { new RegExp(t.replace(/\\[/g, '(')); } catch (e6) { } 1;",
 ]
@@ -189,6 +193,15 @@ def main(ctx):
     progs.append("var out = []; var OPS = %s; for (var i = 0; i < OPS.length; i++) { try { (0, eval)(OPS[i]); out.push('ok'); } catch (e) { out.push(String(e && e.name) + ': ' + String(e && e.message)); } } log(out); 'done'" % json.dumps(bad_ops))
     for op in bad_ops:
         progs.append("var m; try { %s; m = 'no error'; } catch (e) { m = [e && e.name, e && e.message, String(e)]; } log(m); %s" % (op, op))
+    # programs whose outcome sits at a depth threshold of the engine (conversions of nested data, nested source): the threshold is a
+    # property of the engine, not of what ran before in the process
+    for depth in (150, 300, 400, 600, 900, 1000, 1500, 3000):
+        progs.append("var a = [1]; for (var i = 0; i < %d; i++) { a = [a]; } var r; try { r = 'ok:' + String(a).length; } catch (e) { r = e.name + ':' + e.message; } log(r); 'done'" % depth)
+        progs.append("var a = [1]; for (var i = 0; i < %d; i++) { a = [a]; } var r; try { r = 'ok:' + JSON.stringify(a).length; } catch (e) { r = e.name + ':' + e.message; } log(r); 'done'" % depth)
+        progs.append("var o = {v: 1}; for (var i = 0; i < %d; i++) { o = {k: o}; } var r; try { r = 'ok:' + JSON.stringify(o).length; } catch (e) { r = e.name + ':' + e.message; } log(r); 'done'" % depth)
+        progs.append("var t = ''; for (var i = 0; i < %d; i++) { t += '['; } for (var j = 0; j < %d; j++) { t += ']'; } var r; try { r = 'ok:' + JSON.parse(t).length; } catch (e) { r = e.name; } log(r); 'done'" % (depth, depth))
+        progs.append("var t = ''; for (var i = 0; i < %d; i++) { t += '('; } t += '1'; for (var j = 0; j < %d; j++) { t += ')'; } var r; try { r = 'ok:' + (0, eval)(t); } catch (e) { r = e.name + ':' + String(e.message).slice(0, 40); } log(r); 'done'" % (depth, depth))
+        progs.append("var a = [1]; for (var i = 0; i < %d; i++) { a = [a]; } a;" % depth)
     from checks import C08 as _c08
     for i in range(40 if ctx.quick else 600):
         progs.append(_c08.history(fixed if i % 2 == 0 else rng, 10, avoid=("fn-receiver",)))
